@@ -196,7 +196,7 @@ PROPS = {
         "rule": "pods (1-3 containers named main/helper/istio-proxy/training incl. duplicates, explicit commands python/sh/bash/`sh -c`/`bash -c`/`sh -x`/binary, args, env, mounts, "
                 "volumes, labels incl. a stale trial label) x Trials (seven collector kinds incl. Custom with a collector named like the primary container and Push; primaryPodLabels "
                 "nil/matching/mismatching; stop rules nil/empty/1-2; filters; file and directory sources) x environment (katib-config collector entry present/absent, waitAllProcesses, "
-                "Experiment present/absent, Suggestion present/absent, suggestion_trial_dir) through the real SidecarInjector.MutationRequired + Mutate on a fake client; every fourth case "
+                "Experiment present/absent, Suggestion present/absent, suggestion_trial_dir) through the real SidecarInjector.MutationRequired + Mutate on a fake client and, for the same pod as JSON, through the real admission handler SidecarInjector.Handle (the returned JSON patch is applied and must give the same pod; refusals must coincide); every fourth case "
                 "drives MutationRequired over a generated acyclic ownership graph (Job/ReplicaSet/Deployment/StatefulSet objects, dangling owners, Trial references of other API groups)",
         "trusted": ["sigs.k8s.io/yaml round trip of the generated katib-config", "fake client as API server", "filepath.Dir / filepath.Join / env-derived DB manager address computed Go-side and passed in"],
         "modelled": ["SidecarInjector.Mutate, getMetricsCollectorContainer, getMetricsCollectorArgs, mutateMetricsCollectorVolume, mutateSuggestionVolume, mutatePodMetadata, mutatePodEnv, "
@@ -214,7 +214,7 @@ PROPS = {
                 "resume policy valid/invalid/nil; 0-3 parameters of every type with valid, empty, mixed and duplicated spaces and names; NAS config; inline Job/TFJob/CRD templates and "
                 "ConfigMap templates with declared/undeclared/unused placeholders, metadata references (Name, Labels[k] present/absent, unknown keys), missing apiVersion, fixed name, "
                 "unconvertible Job fields; collector kinds x nil/partial sources, ports, filters) plus one random field of the spec zeroed by reflection, x three katib-config contents; run "
-                "through the real SetDefault + ValidateExperiment (recover), and for admitted objects through util.GetSuggestion*Name and GetRunSpecWithHyperParameters on two feasible "
+                "through the real SetDefault + ValidateExperiment (recover) and, as JSON, through the real admission handlers ExperimentDefaulter.Handle (patch applied, must equal the directly defaulted object) and ExperimentValidator.Handle (decision must coincide), and for admitted objects through util.GetSuggestion*Name and GetRunSpecWithHyperParameters on two feasible "
                 "assignments; every sixth case checks the naming rule / the DNS label predicates on random strings against the validator and k8s.io/apimachinery validation",
         "trusted": ["engines as oracle bits: regexp, JSON/YAML conversion of the dry-run template, batch/v1 Job conversion (asked from the real validator on a clean experiment), katib-config "
                     "lookups, strconv.Atoi", "the harness's own dry-run substitution (compared with the model's dry-run text on every case)", "fake client as API server"],
